@@ -164,7 +164,10 @@ def parseFen (s : Bytes) : M (Except FenError Position) := do
       let p := { p with flags, ep }
       let epOk ← if ep == InvalidSq then pure true else epConsistent p
       if !epOk then pure (.error (.invalid "en passant")) else
-      if !castlingConsistent p then pure (.error (.invalid "castling")) else
+      if !castlingConsistent p then pure (.error (.invalid "castling")) else do
+      -- `isOpponentKingUnderCheck`: the side that is not to move must not be in check
+      let oppInCheck ← isUnderCheck p.board (p.side (whiteTurn p)) (p.side (!whiteTurn p)).king
+      if oppInCheck then pure (.error (.invalid "side not to move in check")) else
       match atoi (fields.getD 5 []) with
       | none => pure (.error .fullmove)
       | some n =>
